@@ -53,6 +53,10 @@ def cases(tier, seed):
         recs.append((['named', 'lollipop', int(rs.randint(3, 6)), int(rs.randint(1, 4))], False))
     for i, (g, d) in enumerate(recs):
         out.append({'g': g, 'directed': d, 'ws': seed * 100 + i, 'schemes': ['bin', 'real', 'dyad', 'logu', 'const']})
+    # dense graphs of 60-130 nodes: per-node triangle sums of several thousand (an intermediate of reduced precision
+    # -- float16 from an 8-bit input, say -- is exact below 2048 only)
+    for n, p, d in ((64, .9, False), (72, .85, True)) + (((130, .95, False), (100, .6, True)) if thorough else ()):
+        out.append({'g': ['er', n, p, d, seed + n], 'directed': d, 'ws': seed + n, 'schemes': ['bin'], 'bigdense': True})
     return out
 
 
@@ -86,9 +90,10 @@ def run(case, bct, REC):
             for fname in ('clustering_coef_wd', 'transitivity_wd', 'clustering_coef_bd', 'transitivity_bd') + \
                     (('clustering_coef_wu', 'transitivity_wu', 'clustering_coef_bu', 'transitivity_bu', 'clustering_coef_wu_sign') if not directed else ()):
                 layout_variants_agree(REC, PROP, fname, getattr(bct, fname), W)
-        if sc == 'bin' and n <= 30:
-            for fname in ('clustering_coef_bd', 'transitivity_bd') + (('clustering_coef_bu', 'transitivity_bu') if not directed else ()):
-                dtype_variants_agree(REC, PROP, fname, getattr(bct, fname), W)
+        if sc == 'bin' and (n <= 30 or case.get('bigdense')):
+            for fname in ('clustering_coef_bd', 'transitivity_bd', 'clustering_coef_wd', 'transitivity_wd') + \
+                    (('clustering_coef_bu', 'transitivity_bu', 'clustering_coef_wu', 'transitivity_wu') if not directed else ()):
+                dtype_variants_agree(REC, PROP, fname, getattr(bct, fname), W, exact=fname.endswith(('bu', 'bd')))
         if sc == 'bin':
             Cb, Tb = O.clustering_bd(W)
             ok, C = call(REC, PROP, 'clustering_coef_bd', bct.clustering_coef_bd, W)
